@@ -152,6 +152,8 @@ def h_direct(ctx, transport, raw, good, nsense, reuse=False, first_raw=None):
     if via_facade_execute:
         sc.good += 1  # attaching sends one INQUIRY
         s = SCSI(dev)
+    # the command set the device object carries is the attached device's: any of the five
+    dev.opcodes = K.get_set(["spc", "sbc", "ssc", "smc", "mmc"][ctx.choose("device command set", ["spc", "sbc", "ssc", "smc", "mmc"])])
     if reuse:
         # the same command object was already executed once and failed with CHECK CONDITION (other sense)
         sc0 = Scenario(ctx, 0, nsense, poison=False, tag="first_")
@@ -170,6 +172,28 @@ def h_direct(ctx, transport, raw, good, nsense, reuse=False, first_raw=None):
     ctx.check("the command goes to the binding exactly once, whatever its outcome (no silent re-send)",
               len(env.ENV.sgio_calls) + len(env.ENV.iscsi_tasks) - n0 == ctx.oracle(1))
     _judge(ctx, transport, sc, dev, st, r, raw, lambda: cmd)
+
+
+def h_with(ctx, transport, kind, nsense):
+    """the failure also leaves a `with` block: neither the device's nor the facade's __exit__ swallows it"""
+    from pyscsi.pyscsi.scsi import SCSI
+    from pyscsi.pyscsi.scsi_cdb_testunitready import TestUnitReady
+    env, dev = _mkdev(transport)
+    sc = Scenario(ctx, 1 if kind == "facade" else 0, nsense)
+    env.ENV.reset(sc)
+    env.ENV.cur_inode = 1
+    cmd = TestUnitReady(dev.opcodes.TEST_UNIT_READY)
+
+    def body():
+        if kind == "facade":
+            with SCSI(dev) as s:
+                s.execute(cmd)
+        else:
+            with dev as d:
+                d.execute(cmd)
+        return "left the with block normally"
+    st, r = ctx.attempt(body)
+    _judge(ctx, transport, sc, dev, st, r, False, lambda: cmd)
 
 
 def h_facade(ctx, transport, cmd, good, nsense):
@@ -226,6 +250,8 @@ def obligations(tier):
             for fr in (False, True):
                 obs.append(Ob("direct-reused-command/%s/first-raw=%s/raw=%s" % (tr, fr, raw), MOD, "h_direct",
                               {"transport": tr, "raw": raw, "good": 0, "nsense": 18, "reuse": True, "first_raw": fr}))
+        for kind in ("device", "facade"):
+            obs.append(Ob("with-block/%s/%s" % (tr, kind), MOD, "h_with", {"transport": tr, "kind": kind, "nsense": 18}))
         for cmd, spec in L.CDB.items():
             if not spec["facade"]:
                 continue
